@@ -188,6 +188,7 @@ def basic(B, G, k, l):
     # complex sigmoid
     sg = cplx.sigmoid(B.tensor(re), B.tensor(im))
     cmp(B, G, "sigmoid", sg, np.vectorize(lambda a, b: O.cexp(O.cplx(a, b)) / (O.cplx(O.frac(1)) + O.cexp(O.cplx(a, b))), otypes=[object])(re, im))
+
     # sensitivity twins
     G.twin("twin_inner_prod_conjugates_second", B.scalars(cplx.inner_prod(x, y))[1], O.im(sum((zx[i] * O.conj(zy[i]) for i in range(1, k)), zx[0] * O.conj(zy[0]))))
     G.twin("twin_outer_no_conj", B.scalars(cplx.outer_prod(x, w))[1, 0, 0], O.im(zx[0] * zw[0]))
@@ -237,6 +238,22 @@ def kron_einsum(B, G, k, l, p, q):
     cmp_real(B, G, "absolute_value(rank4)", cplx.absolute_value(T4), vmap(lambda v: O.sqrt(O.abs2(v)), zT))
     # (indexing-free: a wrongly shaped result must fail its shape fact above, not crash the harness here)
     G.twin("twin_kron_order", B.scalars(cplx.kronecker_prod(X, Y)).reshape(2, -1)[0, -1], O.re(zX[k - 1, l - 1] * zY[p - 1, q - 1]) + 1)
+
+
+def sigmoid_concrete(B, G):
+    """cplx.sigmoid on concrete arguments (its own job: an implementation that branches on the sign of the real part cannot be
+    run on symbolic arguments at all)"""
+    from qucumber.utils import cplx
+
+    O = B.O
+    # concrete arguments in all four quadrants (code that branches on the sign of the real part can run): e^c, cos c, sin c opaque constants
+    cre = np.array([O.frac(-1), O.frac(-1, 2), O.frac(3, 4), O.frac(-2), O.frac(1, 4)], dtype=object)
+    cim = np.array([O.frac(2), O.frac(-1), O.frac(1, 2), O.frac(0), O.frac(-3, 2)], dtype=object)
+    if not B.symbolic:
+        cre, cim = cre.astype(float), cim.astype(float)
+    sgc = cplx.sigmoid(B.tensor(cre), B.tensor(cim))
+    cmp(B, G, "sigmoid(concrete)", sgc, np.vectorize(lambda a, b: O.cexp(O.cplx(a, b)) / (O.cplx(O.frac(1)) + O.cexp(O.cplx(a, b))), otypes=[object])(cre, cim))
+    G.twin("twin_sigmoid_conjugate", B.scalars(sgc)[1, 0], -O.im(O.cexp(O.cplx(cre[0], cim[0])) / (O.cplx(O.frac(1)) + O.cexp(O.cplx(cre[0], cim[0])))))
 
 
 def zeros(B, G):
@@ -297,6 +314,7 @@ def jobs(tier):
     for k, l in shapes:
         J.append(dict(name="basic-%dx%d" % (k, l), module="checks.c15", scenario="basic", kwargs=dict(k=k, l=l)))
     J.append(dict(name="zeros", module="checks.c15", scenario="zeros", kwargs={}))
+    J.append(dict(name="sigmoid-concrete", module="checks.c15", scenario="sigmoid_concrete", kwargs={}))
     ks = [(2, 1, 1, 3), (2, 2, 2, 2), (1, 2, 3, 1)] + ([(2, 3, 3, 2), (3, 3, 2, 2), (4, 1, 2, 3), (3, 2, 4, 1)] if tier != "quick" else [])
     for t in ks:
         J.append(dict(name="kron-%d%d%d%d" % t, module="checks.c15", scenario="kron_einsum", kwargs=dict(k=t[0], l=t[1], p=t[2], q=t[3])))
